@@ -114,7 +114,47 @@ func (c *Ctx) freeOf(syms []string, lines map[int]bool) map[string]bool {
 
 // sliceFor computes which prelude lines and which of the first nAssume
 // assumptions are relevant for the given terms.
-func (c *Ctx) sliceFor(nAssume int, goals ...Term) (keepLine []bool, keepAssume []bool) {
+// hardLine: the definition (or anything it is built from) uses nonlinear or
+// division bit-vector arithmetic, which the solvers bit-blast at great cost.
+func (c *Ctx) hardLine(idx int) bool {
+	if c.hardMemo == nil {
+		c.hardMemo = map[int]bool{}
+	}
+	if v, ok := c.hardMemo[idx]; ok {
+		return v
+	}
+	c.hardMemo[idx] = false // cycle guard (definitions only refer backwards)
+	h := hasHardOp(c.lines[idx])
+	if !h && c.info[idx].isDef {
+		for _, d := range c.info[idx].deps {
+			if di, ok := c.byName[d]; ok && di != idx && c.hardLine(di) {
+				h = true
+				break
+			}
+		}
+	}
+	c.hardMemo[idx] = h
+	return h
+}
+
+func hasHardOp(s string) bool {
+	return strings.Contains(s, "(bvmul") || strings.Contains(s, "(bvsdiv") || strings.Contains(s, "(bvudiv") ||
+		strings.Contains(s, "(bvurem") || strings.Contains(s, "(bvsrem")
+}
+
+func (c *Ctx) hardAssume(i int) bool {
+	if hasHardOp(c.Assumes[i].S) {
+		return true
+	}
+	for _, s := range c.assumeSyms[i] {
+		if di, ok := c.byName[s]; ok && c.hardLine(di) {
+			return true
+		}
+	}
+	return false
+}
+
+func (c *Ctx) sliceFor(nAssume int, thin bool, goals ...Term) (keepLine []bool, keepAssume []bool) {
 	c.mu.Lock()
 	defer c.mu.Unlock()
 	c.index()
